@@ -16,8 +16,10 @@
 (* ids are interned by the harness in the order of the enq lines (0 = an   *)
 (* id that was never issued).  p = "" when the calling process is unknown  *)
 (* (gateway handler goroutines for Unlock).                                *)
+(*   {"ev":"wdexit","id":3}  the TTL watchdog goroutine of grant 3 ended   *)
 (* IOEnv.CHECK_QMAP = "1": rest lines also compare the set of keys that    *)
-(* have a queue object (C28).                                              *)
+(* have a queue object and the set of grants whose watchdog goroutine is   *)
+(* alive (C28).                                                            *)
 (***************************************************************************)
 EXTENDS Lock, Json, IOUtils
 
@@ -66,6 +68,11 @@ TrTtl ==
             /\ QIds(queue[Line.k]) = AsSeq(Line.ids)
             /\ UNCHANGED vars
 
+\* the watchdog goroutine of a finished grant returns
+TrWdExit ==
+  /\ Is("wdexit") /\ Step
+  /\ WdExit(Line.id)
+
 TrAbort ==
   /\ Is("rem") /\ Line.cause = "cancel" /\ Step
   /\ Line.found = 1
@@ -80,7 +87,7 @@ TrRest ==
   /\ Is("rest") /\ Step
   /\ \A p \in Procs : pc[p] = (IF ObsPc(p) = "aborting" THEN "waiting" ELSE ObsPc(p))
   /\ \A p \in Procs : ObsPc(p) = "waiting" => ~ready[p]
-  /\ (CheckQmap => qmap = AsSet(Line.qmap))
+  /\ (CheckQmap => (qmap = AsSet(Line.qmap) /\ wd = AsSet(Line.wd) /\ WdQuiescent))
   /\ UNCHANGED vars
 
 TrReset ==
@@ -89,7 +96,7 @@ TrReset ==
   /\ queue' = [k \in Keys |-> <<>>] /\ qmap' = {} /\ nextId' = 0
   /\ pc' = [p \in Procs |-> "idle"] /\ key' = [p \in Procs |-> ""] /\ cur' = [p \in Procs |-> 0]
   /\ ready' = [p \in Procs |-> FALSE] /\ cancelled' = [p \in Procs |-> FALSE]
-  /\ stale' = {} /\ calls' = [p \in Procs |-> 0]
+  /\ stale' = {} /\ calls' = [p \in Procs |-> 0] /\ wd' = {}
   /\ last' = [a |-> "Init", p |-> "", k |-> "", id |-> 0, res |-> 0]
 
 TrEnd ==
@@ -98,7 +105,7 @@ TrEnd ==
   /\ PrintT(ToJson([accepted |-> TRUE, lines |-> Len(Trace)]))
   /\ l' = l + 1 /\ UNCHANGED <<vars, run>>
 
-TraceNext == TrEnq \/ TrGrant \/ TrUnlock \/ TrTtl \/ TrAbort \/ TrRest \/ TrReset \/ TrEnd
+TraceNext == TrEnq \/ TrGrant \/ TrUnlock \/ TrTtl \/ TrAbort \/ TrWdExit \/ TrRest \/ TrReset \/ TrEnd
 TraceSpec == TraceInit /\ [][TraceNext]_tvars
 
 \* the step properties of the design, on every step of the trace except the resets
